@@ -1011,4 +1011,141 @@ example : saltViscosity (25:ℝ) 1 0.101325 < saltViscosity (25:ℝ) 2 0.101325 
     (hv.1 1 (by norm_num) (by norm_num)) (hv.1 2 (by norm_num) (by norm_num))).2.1
 
 
+/-! ### The public water functions and the constructor: what they return is in range -/
+
+/-- What the public `density_of_water` returns (when it returns) is the density of the correlation at a molality in
+    `[0, 6]` inside the validity range — a number between 400 and 2000 kg/m³ — for every non-negative pressure. -/
+theorem density_of_water_in_range (T c ρ : ℝ) (p : Option ℝ) (hp : ∀ x, p = some x → 0 ≤ x)
+    (h : densityOfWater T c p = .ok ρ) : 400 < ρ ∧ ρ < 2000 := by
+  unfold densityOfWater at h
+  obtain ⟨P, hP⟩ : ∃ P : ℝ, P = p.getD 0.101325 := ⟨_, rfl⟩
+  have hP0 : 0 ≤ P := by
+    cases p with
+    | none => rw [hP]; simp; norm_num
+    | some x => rw [hP]; simpa using hp x rfl
+  rw [← hP] at h
+  dsimp only at h
+  cases hm : molarityToMolality T c P with
+  | error e => rw [hm] at h; cases h
+  | ok m =>
+    rw [hm] at h
+    simp only [Bind.bind, Except.bind] at h
+    obtain ⟨m0, m6⟩ := molarityToMolality_mem T c P m hm
+    split_ifs at h with hv
+    cases h
+    obtain ⟨⟨t0, t1⟩, p1, _⟩ := (saltValid_real T m P).mp hv
+    exact saltDensity_bounds T m P t0 t1.le hP0 p1 m0 m6
+
+example : ∃ ρ, densityOfWater (25:ℝ) 0 none = .ok ρ ∧ 400 < ρ ∧ ρ < 2000 := by
+  have hv : saltValid (25:ℝ) 0.0 0.101325 = true := by rw [saltValid_real]; norm_num
+  have h : densityOfWater (25:ℝ) 0 none = .ok (saltDensity 25 0.0 0.101325) := by
+    simp only [densityOfWater, Option.getD_none, molarityToMolality_zero, Bind.bind, Except.bind, hv, if_true]
+  exact ⟨_, h, density_of_water_in_range 25 0 _ none (by simp) h⟩
+
+
+/-- What the public `viscosity_of_water` returns (when it returns a number) is positive — the Huber value for plain
+    water, the Kestin value at a molality in `[0, 6]` inside the validity range otherwise — for every non-negative
+    pressure. -/
+theorem viscosity_of_water_positive (T v : ℝ) (c p : Option ℝ) (hp : ∀ x, p = some x → 0 ≤ x)
+    (h : viscosityOfWater T c p = some (.ok v)) : 0 < v := by
+  unfold viscosityOfWater at h
+  split_ifs at h with hsalt
+  · obtain ⟨P, hP⟩ : ∃ P : ℝ, P = p.getD 0.101325 := ⟨_, rfl⟩
+    have hP0 : 0 ≤ P := by
+      cases p with
+      | none => rw [hP]; simp; norm_num
+      | some x => rw [hP]; simpa using hp x rfl
+    dsimp only at h
+    rw [← hP] at h
+    simp only [Option.some.injEq] at h
+    cases hm : molarityToMolality T (c.getD 0.0) P with
+    | error e => rw [hm] at h; cases h
+    | ok m =>
+      rw [hm] at h
+      simp only [Bind.bind, Except.bind] at h
+      obtain ⟨m0, m6⟩ := molarityToMolality_mem T _ P m hm
+      split_ifs at h with hv
+      cases h
+      obtain ⟨⟨t0, t1⟩, p1, _⟩ := (saltValid_real T m P).mp hv
+      exact saltViscosity_pos T m P t0 t1.le hP0 p1 m0 m6
+  · rename_i hT
+    simp only [Option.some.injEq] at h
+    cases h
+    simp only [RealLike.le, RealLike.lt, Bool.and_eq_true, decide_eq_true_eq] at hT
+    exact viscosity_water_pos T (by have := hT.1; norm_num at this; linarith)
+  · simp at h
+
+example : ∃ v, viscosityOfWater (25:ℝ) none none = some (.ok v) ∧ 0 < v := by
+  have h : viscosityOfWater (25:ℝ) none none = some (.ok (viscosityWater 25)) := by
+    simp [viscosityOfWater, truthy, RealLike.le, RealLike.lt]; norm_num
+  exact ⟨_, h, viscosity_of_water_positive 25 _ none none (by simp) h⟩
+
+theorem hydro_pos_any (f fc D g R rhoS rhoB : ℝ) (l : Option ℝ) (hf : 0 < f) (hD : 0 < D) (hg : 0 < g) (hR : 0 < R)
+    (hrho : 0 < rhoS) (hl : ∀ x, l = some x → R ≤ x) : 0 < hydroPsd f fc D g R rhoS rhoB l := by
+  cases l with
+  | none => exact hydro_bulk_pos f fc D g R rhoS rhoB hf hD hg hR hrho
+  | some x => exact hydro_surface_pos f fc D g R rhoS rhoB x hf hD hg hR hrho (hl x rfl)
+
+theorem sphereFriction_pos (η d : ℝ) (hη : 0 < η) (hd : 0 < d) : 0 < sphereFriction η d := by
+  rw [sphereFriction_real]; have := Real.pi_pos; positivity
+
+/-- A model `PassiveCalibrationModel.__init__` returns with the hydrodynamic correction has a positive physical
+    spectrum at every positive frequency, in bulk and near a surface: the validation chain establishes every
+    hypothesis of `hydro_bulk_pos` / `hydro_surface_pos` (diameter ≥ 0.01 µm, positive viscosity and densities,
+    distance ≥ 1.5 radii). -/
+theorem passive_init_hydro_spectrum_pos (c : PassiveCfg ℝ) (m : Passive ℝ) (h : Passive.init c = .ok m)
+    (hh : c.hydro = true) (f fc D : ℝ) (hf : 0 < f) (hD : 0 < D) : 0 < m.physical f fc D := by
+  obtain ⟨d, visc, T, hydro, dist, rhoS, rhoB, fast, ax⟩ := c
+  simp only at hh
+  subst hh
+  unfold Passive.init at h
+  simp only [RealLike.lt, RealLike.le, if_true, decide_eq_true_eq] at h
+  have key : ∀ (η ρ : ℝ), 0 < η → 0 < ρ → (0.01:ℝ) ≤ d → (∀ x, dist = some x → d / 2 ≤ x) →
+      0 < hydroPsd f fc D (sphereFriction η (d * 1.0e-6)) (d * 1.0e-6 / 2.0) ρ rhoB (dist.map (· * 1.0e-6)) := by
+    intro η ρ hη hρ hd hx
+    apply hydro_pos_any f fc D _ _ ρ rhoB _ hf hD (sphereFriction_pos η _ hη (by norm_num; linarith))
+      (by norm_num; linarith) hρ
+    intro x hx'
+    cases dist with
+    | none => simp at hx'
+    | some l =>
+      simp only [Option.map_some, Option.some.injEq] at hx'
+      have := hx l rfl
+      rw [← hx']; norm_num; linarith
+  rcases visc with _ | v <;> rcases dist with _ | l <;> rcases rhoS with _ | rs <;> simp only at h <;>
+    split_ifs at h <;> cases h <;> simp only [Passive.physical, if_true]
+  all_goals
+    have hd : (0.01:ℝ) ≤ d := by have := ‹¬d < 10e-3›; norm_num at this ⊢; exact this
+    refine key _ _ ?_ ?_ hd ?_
+    · first
+      | (have hv := ‹¬decide (v ≤ 3e-4) = true›
+         simp only [decide_eq_true_eq] at hv; norm_num at hv; linarith)
+      | (have ht := ‹¬(!(decide (5.0 < T) && decide (T < 90.0))) = true›
+         have h5 : (5.0:ℝ) < T := by
+           by_contra hc
+           exact ht (by simp [hc])
+         exact viscosity_water_pos T (by norm_num at h5; linarith))
+    · first
+      | (have hr := ‹¬decide (rs < 100.0) = true›
+         simp only [decide_eq_true_eq] at hr; norm_num at hr; linarith)
+      | norm_num
+    · first
+      | (have hl := ‹¬decide (l < d / 2.0) = true›
+         simp only [decide_eq_true_eq] at hl
+         intro x hx
+         simp only [Option.some.injEq] at hx
+         rw [← hx]; norm_num at hl ⊢; exact hl)
+      | (intro x hx; simp at hx)
+
+
+/-- a 1 µm bead 1 µm above the surface with the hydrodynamic correction passes the validation -/
+example : ∃ m : Passive ℝ,
+    Passive.init ⟨1, some 1e-3, 20, true, some 1, none, 1060, false, false⟩ = .ok m ∧ 0 < m.physical 1000 500 2 := by
+  have h : ∃ m : Passive ℝ, Passive.init ⟨1, some 1e-3, 20, true, some 1, none, 1060, false, false⟩ = .ok m := by
+    unfold Passive.init
+    simp only [RealLike.lt, RealLike.le, isZero_real]
+    norm_num
+  obtain ⟨m, hm⟩ := h
+  exact ⟨m, hm, passive_init_hydro_spectrum_pos _ m hm rfl _ _ _ (by norm_num) (by norm_num)⟩
+
 end Verif.C20
